@@ -1,6 +1,7 @@
 import PB.Model.FsAtomic
 import PB.Spec.FsCrash
 import PBProofs.Lemmas.FsAtomic
+import PBProofs.Lemmas.FsWriters
 /-
 C17 — Files are published atomically: old content or new content, never a fragment.
 
@@ -198,6 +199,84 @@ theorem isTemp_mono (tmpdirs : List Path) (destDir : Path) (prefixes : List Stri
     cases hd : p.drop destDir.length with
     | nil => exact absurd hd hne
     | cons a b => rw [hd] at hh; exact hh
+
+/-! ### The writers as programs (PB.Model.FsWriters), explored exhaustively -/
+
+/-- If the exhaustive exploration `checkAll` of a writer program succeeds, then for EVERY pattern of failing
+    system calls, at EVERY crash point of the resulting run, a reader sees old or new — concurrently, after a
+    kill, and after every legal power-loss outcome — and only allowed names are ever created. -/
+theorem explored_program_is_atomic (s0 : FS) (dest : Path) (old new : Obs) (tmp : Path → Bool) (prog : Prog)
+    (h : checkAll dest old new tmp prog (chkInit s0 dest old new) 0 = true)
+    (fails : List Bool) (p q : List Call) (hp : runProg prog s0 (oracleOf 0 fails) = p ++ q) :
+    ((vview (run s0 p) dest = old ∨ vview (run s0 p) dest = new) ∧
+      ∀ c : Crash s0 p, c.view dest = old ∨ c.view dest = new) ∧
+    onlyTemp dest tmp (runProg prog s0 (oracleOf 0 fails)) = true := by
+  have hs := checkAll_sound dest old new tmp prog (chkInit s0 dest old new) 0 h fails
+  exact ⟨safePublish_sound s0 dest old new _ hs.1 p q hp, hs.2⟩
+
+/-- (old state, os.TempDir(), chunks written): destination absent / present, TMPDIR on the same file system /
+    on another one / missing, two chunks / empty content. -/
+def writeFileConfigs : List (Option Inode × Path × List Seg) :=
+  [(none, ["R", "tmp"], exChunks), (some exOldFile, ["R", "tmp"], exChunks),
+   (none, ["X"], exChunks), (some exOldFile, ["X"], exChunks),
+   (none, ["R", "missing"], exChunks), (some exOldFile, ["R", "missing"], exChunks),
+   (some exOldFile, ["R", "tmp"], []), (some exOldLink, ["R", "tmp"], exChunks)]
+
+/-- renameio.WriteFile / fstree.writeFile, modelled branch by branch (tempDir probing with its deferred
+    removals, TempFile, Chmod, Write, CloseAtomicallyReplace, Cleanup): whichever system calls fail and wherever
+    the run stops, the checker accepts what was executed. -/
+theorem writeFile_explored : ∀ cfg ∈ writeFileConfigs,
+    checkAll destF (worldOld cfg.1) (some (.file (written cfg.2.2), [])) exTmp
+      (writeFileP cfg.2.1 destF 0o640 cfg.2.2)
+      (chkInit (worldFS cfg.1) destF (worldOld cfg.1) (some (.file (written cfg.2.2), []))) 0 = true := by
+  have h : writeFileConfigs.all (fun cfg =>
+      checkAll destF (worldOld cfg.1) (some (.file (written cfg.2.2), [])) exTmp
+        (writeFileP cfg.2.1 destF 0o640 cfg.2.2)
+        (chkInit (worldFS cfg.1) destF (worldOld cfg.1) (some (.file (written cfg.2.2), []))) 0) = true := by
+    decide +kernel
+  exact fun cfg hc => List.all_eq_true.1 h cfg hc
+
+/-- (old state, opts.TempDir, os.TempDir(), opts.Mode, chunks, reader fails) -/
+def createAtomicConfigs : List (Option Inode × Option Path × Path × Nat × List Seg × Bool) :=
+  [(none, none, ["R", "tmp"], 0, exChunks, false), (some exOldFile, none, ["R", "tmp"], 0o600, exChunks, false),
+   (some exOldFile, some ["R", "tmp2"], ["R", "tmp"], 0o644, exChunks, false),
+   (some exOldFile, none, ["X"], 0, exChunks, true), (none, some ["R", "tmp2"], ["R", "tmp"], 0o600, exChunks, true),
+   (some exOldFile, none, ["R", "missing"], 0o600, [], false), (some exOldFile, none, ["R", "tmp"], 0o600, exChunks, true)]
+
+def caNew (cfg : Option Inode × Option Path × Path × Nat × List Seg × Bool) : Obs :=
+  some (.file (written cfg.2.2.2.2.1), [])
+
+/-- utils.CreateAtomic (hence CopyFileAtomic, ReplaceFileAtomic, File.Unpack), including a reader that fails
+    after all chunks were copied: nothing but old or new is ever visible, for every failure pattern. -/
+theorem createAtomic_explored : ∀ cfg ∈ createAtomicConfigs,
+    checkAll destF (worldOld cfg.1) (caNew cfg) exTmp
+      (createAtomicP cfg.2.1 cfg.2.2.1 destF cfg.2.2.2.1 cfg.2.2.2.2.1 cfg.2.2.2.2.2)
+      (chkInit (worldFS cfg.1) destF (worldOld cfg.1) (caNew cfg)) 0 = true := by
+  have h : createAtomicConfigs.all (fun cfg =>
+      checkAll destF (worldOld cfg.1) (caNew cfg) exTmp
+        (createAtomicP cfg.2.1 cfg.2.2.1 destF cfg.2.2.2.1 cfg.2.2.2.2.1 cfg.2.2.2.2.2)
+        (chkInit (worldFS cfg.1) destF (worldOld cfg.1) (caNew cfg)) 0) = true := by
+    decide +kernel
+  exact fun cfg hc => List.all_eq_true.1 h cfg hc
+
+/-- renameio.Symlink over an absent destination, an existing symlink and an existing regular file. -/
+theorem symlink_explored : ∀ old ∈ [none, some exOldLink, some exOldFile],
+    checkAll destF (worldOld old) (some (.symlink "new-target", [])) exTmp (symlinkP "new-target" destF)
+      (chkInit (worldFS old) destF (worldOld old) (some (.symlink "new-target", []))) 0 = true := by
+  have h : [none, some exOldLink, some exOldFile].all (fun old =>
+      checkAll destF (worldOld old) (some (.symlink "new-target", [])) exTmp (symlinkP "new-target" destF)
+        (chkInit (worldFS old) destF (worldOld old) (some (.symlink "new-target", []))) 0) = true := by
+    decide +kernel
+  exact fun old hc => List.all_eq_true.1 h old hc
+
+/-- The exploration is not vacuous: with the `Sync()` removed from the program it fails. -/
+example : checkAll destF (worldOld none) (some (.file (written exChunks), [])) exTmp
+    (.sys (.createTemp ["R", "tmp"] ".f") fun r =>
+      match r with
+      | .created t fd => writeAllP fd exChunks (.ret true)
+          (.sys (.call (.close fd)) fun _ => osRenameP t destF fun _ => .ret false)
+      | _ => .ret true)
+    (chkInit (worldFS none) destF (worldOld none) (some (.file (written exChunks), []))) 0 = false := by decide +kernel
 
 /-! ### Non-vacuity: the hypotheses are met by the sequences recorded from the real writers -/
 
